@@ -121,7 +121,7 @@ def r14_2(ctx, table):
 
 
 def r14_3(ctx):
-    items = ctx.ast.crates["web_atoms"]
+    items = ctx.ast.walkable("web_atoms")
     st = _static_array(items, "C1_REPLACEMENTS")
     vals = []
     for el in st["init"]["elems"]:
@@ -153,7 +153,7 @@ def spec_numeric(n, too_big):
 def r14_4(ctx, which):
     """value function of finish_numeric over an exact integer partition"""
     crate = "html5ever" if which == "html" else "xml5ever"
-    items = ctx.ast.crates[crate]
+    items = ctx.ast.walkable(crate)
     meths = {it["name"]: it for it in items if it["k"] == "Fn" and (it.get("self_ty") or "").replace(" ", "").split("<")[0] == "CharRefTokenizer" and it.get("body") is not None}
     if "finish_numeric" not in meths:
         raise AnchorMissing("%s CharRefTokenizer::finish_numeric" % crate)
